@@ -6,6 +6,7 @@ impl<'de> Reader<'de> for Read<'de> {
     uninterp spec fn data(&self) -> Seq<u8>;
     uninterp spec fn idx(&self) -> nat;
     uninterp spec fn wf(&self) -> bool;
+    uninterp spec fn next_invalid(&self) -> nat;
     #[verifier::external_body] fn remain(&self) -> (r: usize) { unimplemented!() }
     #[verifier::external_body] fn peek(&self) -> (r: Option<u8>) { unimplemented!() }
     #[verifier::external_body] fn peek_n(&self, n: usize) -> (r: Option<&'de [u8]>) { unimplemented!() }
